@@ -495,6 +495,12 @@ def transform_fn(text, spec):
     entry = spec.get('entry')
     if entry:
         edits.append((sh.bopen + 1, sh.bopen + 1, '\n' + entry.rstrip() + '\n'))
+    if spec.get('noreturn'):
+        body_m = m[sh.bopen:sh.bclose]
+        if re.search(r'\breturn\b', body_m) or re.search(r'\?\s*[;)\n]', body_m):
+            raise ExtractError('fn %s: an early exit (`return` or `?`) appeared; the obligation at the end of the function would not cover it' % sh.name)
+    if spec.get('fnend'):
+        edits.append((sh.bclose, sh.bclose, '\n' + spec['fnend'].rstrip() + '\n'))
     tail = spec.get('tail')
     if tail:
         # before the tail expression: after the last `;` at the top level of the body
@@ -605,9 +611,11 @@ def transform_fn(text, spec):
 
     # R11 exact textual rewrites (inside the body only); an absent source text is a lost anchor
     for frm, to in spec.get('rewrites', []):
-        if '{id}' in frm or '.' in frm:
+        if '{id}' in frm or '.' in frm or ' ' in frm:
             # `{id}` stands for one identifier (so that a renamed receiver does not lose the anchor)
-            rx = re.compile(re.escape(frm).replace(re.escape('{id}'), r'([A-Za-z_][A-Za-z0-9_]*)').replace(r'\.', r'\s*\.\s*'))     # method chains may be broken over lines
+            # method chains may be broken over lines and re-indented: white space is flexible between the tokens of the source text
+            rx = re.compile(r'\s*'.join(re.escape(tok).replace(re.escape('{id}'), r'([A-Za-z_][A-Za-z0-9_]*)').replace(r'\.', r'\s*\.\s*')
+                                         for tok in frm.split()))
             hits = [mm for mm in rx.finditer(t) if sh.bopen < mm.start() < sh.bclose]
             if not hits:
                 raise ExtractError('R11: text to rewrite not found: %s' % frm)
